@@ -302,8 +302,11 @@ type tmplImpl struct {
 func newImpl() (*tmplImpl, string, string) {
 	pat, file, err := extractPattern()
 	if err != nil {
+		// the pattern is no longer a literal the harness can read: the capture comparison is a broken
+		// tie (reported once), but MatchAndResolve is still observed through FromBytes+Get, which is
+		// what the property talks about - so the run goes on and can still find a failing input
 		fmt.Fprintln(os.Stderr, "h-tmpl: broken tie:", err)
-		os.Exit(4)
+		return &tmplImpl{touched: map[string]bool{}}, "", file
 	}
 	re, err := regexp.Compile(pat)
 	if err != nil {
@@ -354,6 +357,9 @@ func (t *tmplImpl) Exec(line string) string {
 		s, ok := untok('S', ws[2])
 		if !ok {
 			return "bad-op"
+		}
+		if t.re == nil {
+			return "no-pattern-literal"
 		}
 		return showSub(t.re.FindStringSubmatch(s))
 	case "env":
